@@ -39,7 +39,7 @@ CHECKS["C24"] = {
 
 
 VM_FILES = ["vm/lib.go", "vm/corpus.go", "vm/corpus_wild_gen.go"]
-VM_GROUPS_Q = ["0[1-7]", "0[89]|1[0-4]", "1[5-9]|2[01]", "2[2-8]", "29|3[0-7]"]
+VM_GROUPS_Q = ["0[1-7]", "0[89]|1[0-4]", "1[5-9]|2[01]", "2[2-8]", "29|3[0-8]"]
 
 
 def vm_units(labels):
@@ -52,7 +52,7 @@ def vm_units(labels):
 CHECKS["C22"] = {
     "level": "other",
     "explanation": "The real compiler produces each program of a corpus of program shapes; the real Machine (ResolveResources/ResolveBalances/Execute, Funding.Take/TakeMax/Concat, Allotment.Allocate) is executed symbolically with symbolic amounts, caps, overdraft limits, rational portions and account balances of any sign. z3 decides for every value: posting amounts >= 0, statement asset, sum of postings == sent amount (for 'send [A *]': the reference definition of available funds), 'kept' yields no posting, tracked balances == initial + postings.",
-    "bounds": {"quick": "37 program shapes (in-order/allotment/max sources and destinations, overdraft clauses, send-all, kept, save, balance() variable, multi-send, repeated accounts, two balance() variables on one account, a number variable handed over as JSON text); all numeric inputs unbounded", "thorough": "same corpus"},
+    "bounds": {"quick": "38 program shapes (in-order/allotment/max sources and destinations, overdraft clauses, send-all, kept, save, balance() variable, multi-send, repeated accounts, two balance() variables on one account, a number variable handed over as JSON text, variables read from account metadata); all numeric inputs unbounded", "thorough": "same corpus"},
     "outside": "programs outside the shape corpus; the ANTLR front end is run concretely (not symbolically); account names are concrete per shape",
     "assumptions": COMMON_ASSUME,
     "units": vm_units("^C22:"),
@@ -300,8 +300,8 @@ CHECKS["C29"] = {
 
 CHECKS["C27"] = {
     "level": "other",
-    "explanation": "Decided part of 'never crashes': (a) every program of the 37-shape corpus, compiled by the real compiler, is executed by the real Machine through vm.Run with ANY typed variable values (amounts and numbers of any sign, portions n/d with any n and any d != 0, so also above 100% and negative) and any balances: no reachable panic, a failed run returns no (partial) result, a successful one returns every posting, the program counter only moves forward (the loop terminates within the executor's step bound on every path). (b) machine.NewValueFromString — the door for variable JSON and account metadata — on a symbolic string for every variable type (account, asset, string, number, monetary, portion; regexes, SplitN, big.Rat.SetString and FindStringSubmatch are encoded over SMT strings): no panic, an error carries no value, an accepted portion lies in [0,1]. Number variables are additionally read from every kind of JSON literal (null, booleans, strings, fractions, arrays, ...) both directly and through SetVarsFromJSON + ResolveResources, and an accepted value must have the requested type.",
-    "bounds": {"quick": "37 program shapes; all numeric values unbounded; value strings of <= 6 bytes (portion <= 5, monetary 4+1+3)", "thorough": "same"},
+    "explanation": "Decided part of 'never crashes': (a) every program of the 38-shape corpus, compiled by the real compiler, is executed by the real Machine through vm.Run with ANY typed variable values (amounts and numbers of any sign, portions n/d with any n and any d != 0, so also above 100% and negative) and any balances: no reachable panic, a failed run returns no (partial) result, a successful one returns every posting, the program counter only moves forward (the loop terminates within the executor's step bound on every path). (b) machine.NewValueFromString — the door for variable JSON and account metadata — on a symbolic string for every variable type (account, asset, string, number, monetary, portion; regexes, SplitN, big.Rat.SetString and FindStringSubmatch are encoded over SMT strings): no panic, an error carries no value, an accepted portion lies in [0,1]. Number variables are additionally read from every kind of JSON literal (null, booleans, strings, fractions, arrays, ...) both directly and through SetVarsFromJSON + ResolveResources, and an accepted value must have the requested type.",
+    "bounds": {"quick": "38 program shapes; all numeric values unbounded; value strings of <= 6 bytes (portion <= 5, monetary 4+1+3)", "thorough": "same"},
     "outside": "'compiling any byte string': the ANTLR ATN simulator and the generated parser cannot be executed on symbolic bytes within reach — compilation of arbitrary text is NOT decided; programs outside the corpus; SetVarsFromJSON's JSON layer",
     "assumptions": COMMON_ASSUME + ["FindStringSubmatch on a symbolic subject returns some decomposition of the subject along the pattern (Go's leftmost-first choice when it is unique, as for the repo's patterns)"],
     "units": [
@@ -415,7 +415,7 @@ FILTER_FAMILY = "leaves of every documented kind per resource (exact / $in / 'a:
 CHECKS["C20"] = {
     "level": "other",
     "explanation": "A family of filter ASTs is generated, handed to the real store (real ResourceRepository.buildFilteredDataset, ResolveFilter, BuildDataset, collectAddressFilters, canPushAddressFilterToLateral, go-libs query.Builder, bun) through the recording SQL driver, and the statement emitted for each filter is evaluated by the SQL evaluator on symbolic tables (rows of several ledgers; addresses as strings whose segment arrays are uninterpreted functions of the string; transactions with posting slots; jsonb metadata over 2 keys). Filter values are sentinels mapped to symbolic variables, distinct per leaf. An independent reference evaluator (pychecks/filters.py) gives the meaning of the AST per entity; z3 decides that the list statement returns exactly the entities whose filter is true, once each, that the count statement counts them, and that no scalar sub-query of the statement can yield more than one row (an SQL error). Resources: accounts, transactions, volumes (current and at a PIT by effective date), aggregated balances (per-asset sums over the matching accounts), logs. The lateral push-down of address filters is covered through the volumes / aggregated statements (templates with $or / $not over partial addresses).",
-    "bounds": {"quick": "K <= 2 rows per table, 2 posting slots per transaction; " + FILTER_FAMILY + " (pairs as combinations, triples over 3 leaves, PIT for ASTs of <= 2 leaves)", "thorough": "K <= 3 rows per table; for accounts, transactions and logs: pairs and triples as permutations over all representative leaves, 4 more templates, PIT for every AST; for volumes and aggregated balances the quick family"},
+    "bounds": {"quick": "K <= 2 rows per table, 2 posting slots per transaction; " + FILTER_FAMILY + " (pairs as combinations, triples over 3 leaves, PIT for ASTs of <= 2 leaves)", "thorough": "K <= 3 rows per table; for accounts, transactions and logs: pairs and triples as permutations over all representative leaves, 4 more templates, PIT for every AST; for volumes and aggregated balances the quick family, and K <= 2 for the PIT form of aggregated balances (K = 3 does not finish within the query timeout)"},
     "outside": "reading of the filter language where the property is silent (stated in DESIGN.md): an atom over an absent attribute (balance of a never-held asset, reverted_at of a non-reverted transaction, absent reference) is unknown and Kleene logic applies; $like; grouped volumes; volumes by insertion date and OOT windows with filters; strings needing SQL / jsonpath escaping (escapeSQL / escapeJSONPath are not exercised: sentinels are plain); ordering of the page (C21); tables larger than K",
     "assumptions": COMMON_ASSUME[2:] + SQL_ASSUME + ["row invariants: address_array / sources_arrays / destinations_arrays are the segments of the address they sit next to; every accounts_volumes / moves row has its accounts row in the same ledger; post-commit effective volumes (InvE, C04)"],
     "technique": "bounded symbolic evaluation (z3) of the SQL text captured from the real store for a generated family of filter ASTs, against an independent reference evaluator of the filter language",
